@@ -109,11 +109,13 @@ class TapeDecider:
             if not isinstance(p, torch.Tensor):
                 return PASS
             n = p.numel()
-            pv = p.detach().reshape(-1).to(torch.double)
+            pv = p.detach().reshape(-1).tolist()
 
             def w(c, pv=pv, n=n):
-                x = torch.tensor(bits_of(c, n), dtype=torch.double)
-                return torch.where(x > 0, pv, 1 - pv).prod().item()
+                out = 1.0
+                for j in range(n):
+                    out *= pv[j] if (c >> (n - 1 - j)) & 1 else 1.0 - pv[j]
+                return out
 
             c = t.choose(2 ** n, "bernoulli", probs=w)
             x = torch.tensor(bits_of(c, n), dtype=p.dtype).reshape(p.shape)
